@@ -272,7 +272,10 @@ impl DMatrix {
   #[verifier::external_body] pub fn nrows(&self) -> (n: usize) ensures n == self@.r { unimplemented!() }
   #[verifier::external_body] pub fn ncols(&self) -> (n: usize) ensures n == self@.c { unimplemented!() }
   /// number of elements (nalgebra base/matrix.rs `len`)
-  #[verifier::external_body] pub fn len(&self) -> (n: usize) ensures n == self@.r * self@.c { unimplemented!() }
+  /// (the second and third clause are arithmetic consequences of the first, spelled out because the solver does not do
+  /// nonlinear arithmetic unprompted: `len() == 0` must be as good as `is_empty()`)
+  #[verifier::external_body] pub fn len(&self) -> (n: usize)
+    ensures n == self@.r * self@.c, (n == 0) == (self@.r == 0 || self@.c == 0), self@.c == 1 ==> n == self@.r { unimplemented!() }
   #[verifier::external_body] pub fn is_empty(&self) -> (b: bool) ensures b == (self@.r == 0 || self@.c == 0) { unimplemented!() }
   /// `unsafe { Matrix::uninit(r, c).assume_init() }` after rule X5: nothing is initialised
   #[verifier::external_body]
